@@ -1113,8 +1113,13 @@ class Hyperplane(Subspace):
         standard_ideal_basis = np.vstack(
             [np.ones((1, n-1)), np.eye(n - 1, n - 1, -1)]
         )
-        standard_ideal_basis[n-1, n-2] = -1.
-
+        # in H^1 a hyperplane is a single point: the complement of the
+        # normal is a timelike line, which contains no ideal points.
+        # the one-row "basis" (1, 0) built above already spans it;
+        # putting the -1 there would give the lightlike vector (1, -1),
+        # which is not orthogonal to the normal.
+        if n > 2:
+            standard_ideal_basis[n-1, n-2] = -1.
 
         ideal_basis = transform.apply(standard_ideal_basis.T,
                                       broadcast="pairwise_reversed").proj_data
